@@ -41,6 +41,7 @@ def world_by_name(name):
 
 # property -> list of parts; each part: world name, profile, (runs, wall budget seconds) per tier
 CHECKS = {
+    'C01': [{'world': 'alias', 'profile': 'C01', 'quick': (60000, 45), 'thorough': (1500000, 600)}],
     'C02': [{'world': 'grow', 'profile': 'C02', 'quick': (25000, 45), 'thorough': (3000000, 600)}],
     'C05': [{'world': 'grow', 'profile': 'C05', 'quick': (25000, 45), 'thorough': (3000000, 600)}],
     'C09': [{'world': 'grow', 'profile': 'C09', 'quick': (25000, 45), 'thorough': (3000000, 600)}],
